@@ -501,7 +501,9 @@ theorem br_waits_only_for_wakeable (br : BR) (wl : Option Workload) (o : StepOut
           · rfl
           · split
             · rfl
-            · rw [if_pos ⟨hph, hrd, hpart⟩]; rfl
+            · split
+              · rfl
+              · rw [if_pos ⟨hph, hrd, hpart⟩]; rfl
         · -- Finalizing -> Completed: a status write; not woken means the object is not in deletion
           unfold brAwaits
           simp only
